@@ -5,7 +5,7 @@ from ..harness import scn, gen, obs as O, pyeval
 from . import base_scn
 
 pid = 'C03'
-gen_modules = ['tr_state', 'tr_validators', 'tr_has_patcher', 'tr_contracts', 'tr_decorators', 'tr_pin_contracts', 'tr_rest_validators', 'tr_rest_patcher', 'tr_rest_state', 'tr_rest_lintcontract', 'tr_rest_contractsconst', 'tr_rest_decorators']
+gen_modules = ['tr_state', 'tr_validators', 'tr_has_patcher', 'tr_contracts', 'tr_decorators', 'tr_pin_contracts', 'tr_rest_validators', 'tr_rest_patcher', 'tr_rest_state', 'tr_rest_lintcontract', 'tr_rest_contractsconst', 'tr_rest_decorators', 'tr_testing', 'tr_rest_testing']
 model_targets = ['Sem/Scenario.v']
 hand_modelled = ['coq/Py/Sig.v', 'coq/Sem/Model.v', 'coq/Core/Base.v: classes carry their MRO (computed by CPython for every scenario class)']
 explanation = ('Theorems about the except-block of the generated wrappers for arbitrary class tables; correspondence + monitor over random '
@@ -248,6 +248,21 @@ def probe():
                     got = "ok"
                 except BaseException as e: got = type(e).__name__
                 if got != want: bad.append([kind, how, y, got, want])
+    # two different classes with one name in a declaration (builtins.ConnectionError and a library's own): all consumers admit both
+    import builtins
+    LibConnectionError = type("ConnectionError", (Exception,), {})
+    for raised in (builtins.ConnectionError, LibConnectionError):
+        @deal.raises(builtins.ConnectionError, LibConnectionError)
+        def fetch(): raise raised("x")
+        try: fetch(); rt = "no error"
+        except deal.RaisesContractError: rt = "rejected"
+        except BaseException as e: rt = "admitted" if type(e) is raised else type(e).__name__
+        import typing
+        try:
+            tc = deal.TestCase(args=(), kwargs={}, func=fetch, exceptions=deal.cases(fetch, check_types=False).exceptions, check_types=False)
+            ca = "admitted" if tc() is typing.NoReturn else "returned"
+        except BaseException as e: ca = "rejected:" + type(e).__name__
+        if (rt, ca) != ("admitted", "admitted"): bad.append(["same-named classes", raised.__module__, 0, [rt, ca], ["admitted", "admitted"]])
     return bad
 """
 
